@@ -186,6 +186,42 @@ def adapt_hist(case, obs):
     return "%s/%s/%s/%s%s" % (w[0], w[1], w[2], k, "/PANIC" if "PANIC" in obs else "")
 
 
+def _proj_full_view(line):
+    """mode full for C09 / C12: everything but which operation fired the waker"""
+    return " ; ".join(" ".join(t for t in e.split(" ") if t != "w") for e in line.split(" ; "))
+
+
+def _proj_full_wake(line):
+    """mode full for C14: per operation the kinds of the poll answers and whether the waker fired"""
+    res = []
+    for e in line.split(" ; "):
+        toks = e.split(" ")
+        t0 = toks[0]
+        kinds = "".join("R" if x not in ("P", "N") else x for x in t0.split("+")) if (t0 in ("P", "N") or t0.endswith(("+P", "+N", "+R"))) else "."
+        res.append(kinds + (" w" if "w" in toks[1:] else ""))
+    return " ; ".join(res)
+
+
+def full_hist(case, obs):
+    h = case.split(" :: ")[0].split()
+    return "%s/%s/%s/%s" % (h[1], h[3], "cap1" if h[0] == "cap=1" else "cap>1", "reset" if "Reset" in obs else "noreset")
+
+
+def full_streams(tier, rng, orc, proj):
+    """the three crates wired together (mode full): real ObservableVector + real Observable<usize> as the
+    limit + dynamic_head_with_initial_value / dynamic_skip_with_initial_count, against FullStack.fstep"""
+    q = tier == "quick"
+    n = 4000 if q else 150000
+    project = _named("full:" + proj, _proj_full_view if proj == "view" else _proj_full_wake)
+    nontriv = lambda c, o: "+P" in o or "+R" in o
+    return [Stream("full-stack-exhaustive", "full", gens.full_exhaustive(2 if q else 3), nontriv, True,
+                   "after `append[1,2,3,4] ; attach ; drain`: every sequence of <= %d events over 15 (vector calls incl. a transaction and the drop, limit calls incl. a silent update_if and the drop of the observable, single polls), then drain, two more updates, drain; Head and Skip x Observable / SharedObservable x capacity 1 (lag, Reset) and 16" % (2 if q else 3),
+                   full_hist, oracles=orc, project=project),
+            Stream("full-stack-random", "full", gens.full_random(rng, n), nontriv, False,
+                   "%d seeded random histories of up to 40 events on a real ObservableVector (capacity 1..16: a third of them lag), a real Observable<usize> / SharedObservable<usize> as limit / count (set, set_if_not_eq, set_if_hash_not_eq, update, update_if; drop), the adapter attached after 0-3 events, single polls and drains; compared with the extracted FullStack.fstep line by line" % n,
+                   full_hist, oracles=orc, project=project)]
+
+
 def c09_streams(tier, rng):
     q = tier == "quick"
     ml, mp = (4, 6) if q else (5, 7)
@@ -200,7 +236,7 @@ def c09_streams(tier, rng):
                "%d seeded random histories of 3..30 events (source diffs, batches, limit changes, single polls, drains, end of source/limit stream) over scripted streams" % n,
                adapt_hist, oracles=orc),
         adapt_big_stream(kinds, tier, rng, orc),
-    ]
+    ] + full_streams(tier, rng, {"fullview", "fullapp", "fullnopanic"}, "view")
 
 
 def adapt_big_stream(kinds, tier, rng, orc, **kw):
@@ -330,7 +366,7 @@ def c14_streams(tier, rng):
                lambda c, o: " ok:reg=" in o, False,
                "two- and three-stage chains (C12's generator: head/tail/skip in every flavour incl. by-itself hand-over, filter, filter_map; unbatched and batched): after every full drain that ends Pending, the source stream and every limit/count stream of the stack must hold the waker of that poll (will_wake)",
                chain_hist, oracles={"reg"}, project=proj_chain_reg),
-    ]
+    ] + full_streams(tier, rng, {"fullwake", "fullstuck"}, "wake")
 
 
 PROPS.update({
@@ -338,7 +374,7 @@ PROPS.update({
                 assumptions=["the inner stream delivers diffs applicable to the source (C05/C06 for a subscriber stream, the previous stage's theorem in a chain)",
                              "usize arithmetic does not overflow", "known finding tail_shrink_over_len excluded (see known_findings.json)"],
                 strength="full outside the known-finding class tail_shrink_over_len",
-                level_text="Coq theorems for all element types, buffers, limits/counts and diffs: Head/Tail/Skip one-step correctness (no panic; emitted diffs applicable one by one; view = first/last/all-but-first items), every limit/count change (Tail: outside the recorded class 0<new<len<old, for which the refutation witness is proved), lifted by induction to arbitrary event sequences, plus stream end <=> source end on the poll-loop model. The models are transcriptions of handle_diff/update_limit/update_count and the poll loops; they are tied to the crate by an exhaustive single-step run from every small state plus random histories on every check.",
+                level_text="Coq theorems for all element types, buffers, limits/counts and diffs: Head/Tail/Skip one-step correctness (no panic; emitted diffs applicable one by one; view = first/last/all-but-first items), every limit/count change (Tail: outside the recorded class 0<new<len<old, for which the refutation witness is proved), lifted by induction to arbitrary event sequences, plus stream end <=> source end on the poll-loop model; and with the three crates wired together (FullStack.v: any history of calls on an ObservableVector and on an Observable<usize> holding the limit / count, a dynamic Head / Skip on a fresh subscriber of the vector with a Subscriber of the observable as its limit stream): whenever the adapter answers Pending and the observable has an owner, the view is the first / all-but-first (current value of the observable) items of the vector's current contents (silent update_if stores excluded). The models are transcriptions of handle_diff/update_limit/update_count and the poll loops; they are tied to the crate by an exhaustive single-step run from every small state plus random histories on every check, and by running the real ObservableVector + Observable + dynamic adapter against the extracted FullStack.fstep (mode full).",
                 level_note="Trusted: Coq kernel, extraction, harness; imbl::Vector as list; adapters driven by scripted input streams. Known finding F4 (Tail limit decrease 0<new<len<old, pinned by an existing test) is excluded from the theorem and reported as KNOWN-FINDING."),
     "C10": dict(streams=c10_streams, trusted=ADAPT_TRUST,
                 assumptions=["the inner stream delivers diffs applicable to the source", "the filter function is pure (same answer for the same item)"],
@@ -361,7 +397,7 @@ PROPS.update({
     "C14": dict(streams=c14_streams, trusted=ADAPT_TRUST + ["Waker identity checked with Waker::will_wake on the implementation side"],
                 assumptions=["a leaf stream (the vector subscriber's stream, a limit/count stream) that answers Pending keeps the waker it was polled with (Stream contract; C02 for Subscriber, tokio broadcast for the vector subscriber)"],
                 strength="adapters alone and chained: proved for stacks of any height; the leaf streams' waiter lists (tokio broadcast, ReusableBoxFuture) are modelled in C05-C08, not re-proved here",
-                level_text="Coq theorems on the poll-loop model, generic in the adapter: a poll answers Pending only after, in that very call, the inner stream answered Pending and the limit stream answered Pending or its terminal end, with nothing deliverable left (ready buffer and queues empty); and a drained adapter stays Pending until an input has something. For chains (ChainPoll.v: the loop over an arbitrary inner stream, stacks as lists of stages of any state type): a Pending answer of the top of a stack of any height leaves the waker registered with the source and with every limit/count stream of the stack; a stack with nothing deliverable stays Pending and unchanged; over a scripted queue the generic loop equals the scripted loop that the correspondence check compares with the five poll_next implementations call by call; the model's fuel/depth bounds never change an answer. Tied to the crate by comparing the complete poll trace of both inputs on every poll, checking will_wake on every stored waker, and - for chains of 2-3 real adapters - checking after every drain that ends Pending that every leaf holds the waker of that poll; the leaf streams themselves (plain and batched subscriber stream of a real ObservableVector) are run with a counting waker: ready again after Pending only if it fired, a publish or the drop of the vector while Pending fires it before the call returns, a Pending stream whose waker has not fired is still Pending when polled again.",
+                level_text="Coq theorems on the poll-loop model, generic in the adapter: a poll answers Pending only after, in that very call, the inner stream answered Pending and the limit stream answered Pending or its terminal end, with nothing deliverable left (ready buffer and queues empty); and a drained adapter stays Pending until an input has something. For chains (ChainPoll.v: the loop over an arbitrary inner stream, stacks as lists of stages of any state type): a Pending answer of the top of a stack of any height leaves the waker registered with the source and with every limit/count stream of the stack; a stack with nothing deliverable stays Pending and unchanged; over a scripted queue the generic loop equals the scripted loop that the correspondence check compares with the five poll_next implementations call by call; the model's fuel/depth bounds never change an answer. Tied to the crate by comparing the complete poll trace of both inputs on every poll, checking will_wake on every stored waker, and - for chains of 2-3 real adapters - checking after every drain that ends Pending that every leaf holds the waker of that poll; the leaf streams themselves (plain and batched subscriber stream of a real ObservableVector) are run with a counting waker: ready again after Pending only if it fired, a publish or the drop of the vector while Pending fires it before the call returns, a Pending stream whose waker has not fired is still Pending when polled again. On the two real leaves together (FullStack.v): a Pending answer of the adapter leaves the vector's receiver waiting and the limit subscriber in the observable's waker list, so every published message, the drop of the vector, every announced limit change and the closing of the observable wake the task, and a poll always terminates - run against the three real crates in mode full (oracles fullwake, fullstuck).",
                 level_note="Trusted: as C09, plus the Stream contract of the leaves. The unbatched loop is the one modelled generically; the batched loop differs in the item type only and is covered by the scripted-loop theorems."),
 })
 
@@ -395,7 +431,8 @@ def c12_streams(tier, rng):
                    hand_hist, oracles={"stage0", "stage1", "app", "nopanic"}),
             Stream("end-to-end", "e2e", gens.e2e_cases(rng, 3000 if q else 100000), e2e_nontriv, False,
                    "%d seeded random histories of 1-2 stage stacks on a real ObservableVector subscriber (plain and batched), see C13; here: rebuilt view = stack's view of the vector at every Pending, every diff applicable, no panic" % (3000 if q else 100000),
-                   e2e_hist, oracles={"e2eview", "e2eapp", "e2enopanic", "e2einit"}, project=proj_none)]
+                   e2e_hist, oracles={"e2eview", "e2eapp", "e2enopanic", "e2einit"}, project=proj_none)] + \
+        full_streams(tier, rng, {"fullview", "fullapp", "fullnopanic"}, "view")
 
 
 PROPS["C12"] = dict(
